@@ -35,6 +35,9 @@ type Model[S any] struct {
 	MaxStates int
 	// Stop is polled between levels / expansions (time box).
 	Stop func() bool
+	// ExpandViolating keeps exploring beyond a state whose Check failed
+	// (default: such states are reported and pruned).
+	ExpandViolating bool
 	// Workers is the parallelism (default GOMAXPROCS).
 	Workers int
 }
@@ -140,6 +143,13 @@ func Run[S any](m Model[S]) Result {
 						res.Transitions++
 						if w != "" && len(res.Violations) < 50 {
 							res.Violations = append(res.Violations, Violation{nh, w})
+						}
+						if w != "" && !m.ExpandViolating {
+							// a violating state is reported once, at the first event that
+							// breaks the property, and not expanded further
+							seen[c] = true
+							mu.Unlock()
+							continue
 						}
 						if !seen[c] && (m.MaxStates == 0 || res.States < m.MaxStates) {
 							seen[c] = true
